@@ -315,6 +315,7 @@ pub const LITERALS: &[&str] = &[
     "l\u{b7}l", "a\u{200d}", "\u{94d}\u{200d}", "\u{627}\u{660}", "\u{660}\u{6f0}", "\u{5d0}1", "1\u{5d0}", "\u{5d0}a",
     "\u{30fb}", "\u{30a2}\u{30fb}", "\u{375}\u{3b1}", "\u{5d0}\u{5f3}", "\u{1f412}", "a\u{0}", "\u{378}", "\u{e000}",
     "\u{391}\u{3a3}", "\u{39f}\u{394}\u{3a5}\u{3a3}\u{3a3}\u{395}\u{3a5}\u{3a3}", "a\u{3a3}", "A\u{3a3}.\u{391}\u{3a3}", "\u{3a3}\u{391}",
+    "\u{995}\u{9c7}\u{9be}", "a\u{b95}\u{bc6}\u{bbe}", "\u{ac00}\u{11a8}", "\u{1025}\u{102e}",
     "\u{130}", "\u{1e9e}", "\u{3000}a\u{3000}", "\u{a0}", " ", "  ", "a ", " a", "\u{2003}\u{2003}", "\u{1d400}",
     "\u{2460}", "\u{2122}", "\u{ad}", "\u{fffd}", "\u{10ffff}", "I\u{307}", "\u{1f88}", "\u{1f80}",
 ];
@@ -329,7 +330,10 @@ const TOKENS: &[&[&str]] = &[
     /* 6 cased non-ascii */ &["\u{c9}", "\u{e9}", "\u{3a3}", "\u{3c3}", "\u{3c2}", "\u{130}", "\u{df}", "\u{1e9e}", "\u{1c5}", "\u{1c4}", "\u{1f88}", "\u{10400}", "\u{24b6}", "\u{2160}",
         // context-sensitive lowercasing (Final_Sigma) and multi-character lowercase expansions
         "\u{391}\u{3a3}", "a\u{3a3}", "\u{3a3}\u{3a3}", "\u{3a3}\u{391}", "I\u{307}\u{3a3}"],
-    /* 7 decomposed   */ &["e\u{301}", "A\u{30a}", "\u{212b}", "\u{2126}", "\u{1e0b}\u{323}", "\u{3a9}", "o\u{308}\u{304}", "\u{1100}\u{1161}", "\u{ac00}"],
+    /* 7 decomposed   */ &["e\u{301}", "A\u{30a}", "\u{212b}", "\u{2126}", "\u{1e0b}\u{323}", "\u{3a9}", "o\u{308}\u{304}", "\u{1100}\u{1161}", "\u{ac00}",
+        // starters that combine backwards (NFC_QC = Maybe with combining class 0): second halves of
+        // Indic two-part vowels, Hangul trailing consonants, Myanmar/Sinhala/Tibetan vowel signs
+        "\u{995}\u{9c7}\u{9be}", "\u{b95}\u{bc6}\u{bbe}", "\u{d15}\u{d46}\u{d3e}", "\u{c95}\u{cc6}\u{cd5}", "\u{ac00}\u{11a8}", "\u{1025}\u{102e}", "\u{d9a}\u{dd9}\u{dcf}", "\u{f40}\u{f74}\u{f73}", "\u{b95}\u{bc7}\u{bbe}"],
     /* 8 rtl          */ &["\u{5d0}", "\u{5d1}", "\u{628}", "\u{627}", "\u{5b0}", "\u{64b}", "\u{6cc}"],
     /* 9 digits other */ &["\u{660}", "\u{669}", "\u{6f0}", "\u{6f9}", "\u{966}", "1"],
     /* 10 contextj    */ &["\u{200d}", "\u{200c}", "\u{94d}\u{200d}", "\u{94d}\u{200c}", "\u{915}\u{94d}"],
